@@ -347,7 +347,10 @@ def struct_pack(fmt, *vals):
             raise _struct.error("required argument is not an integer")
         t = T(v)
         lo, hi = (-(1 << (8 * n - 1)), (1 << (8 * n - 1)) - 1) if signed else (0, (1 << (8 * n)) - 1)
-        if not ctx().branch(z3.And(t >= lo, t <= hi)):
+        from .sym import bounds
+        blo, bhi = bounds(simp(t))
+        inside = blo is not None and bhi is not None and lo <= blo and bhi <= hi
+        if not inside and not ctx().branch(z3.And(t >= lo, t <= hi)):
             raise _struct.error(f"'{code}' format requires {lo} <= number <= {hi}")
         u = simp(z3.If(t < 0, t + (1 << (8 * n)), t)) if signed else t
         return mk_rope("bytes", [BL(le_bytes(u, n, order))])
@@ -438,7 +441,9 @@ def stream_read(s, n=None):
             return r
         r = rope_slice(buf, s.pos, None)
         ln = rope_len_term(buf)
-        s.pos = mk_int(z3.If(T(s.pos) > ln, T(s.pos), ln))
+        from .sym import _decide
+        if not _decide(T(s.pos) > ln):
+            s.pos = mk_int(ln)
         return r
     if n is not None and not is_intlike(n):
         raise TypeError(f"argument should be integer or None, not '{ops.type_name(n)}'")
@@ -454,10 +459,12 @@ def stream_read(s, n=None):
             return stream_read(s, None)
     r = to_rope(buf)
     ln = rope_len_term(r)
-    pos = T(s.pos)
-    lo = simp(z3.If(pos > ln, ln, pos))
-    hi = simp(z3.If(pos + tn > ln, ln, pos + tn))
-    hi = simp(z3.If(hi < lo, lo, hi))
+    pos = simp(T(s.pos))
+    from .sym import _decide
+    lo = ln if _decide(pos > ln) else pos
+    hi = ln if _decide(pos + tn > ln) else simp(pos + tn)
+    if _decide(hi < lo):
+        hi = lo
     out = _rope_cut(r, lo, hi)
     s.pos = mk_int(pos + (hi - lo))
     return out
@@ -993,7 +1000,7 @@ def make_builtins(interp):
     reg("divmod", lambda a, c: (ops.py_binop("//", a, c), ops.py_binop("%", a, c)))
     reg("chr", lambda v: chr(v) if not ops.is_sym(v) else mk_rope("str", [BL([T(v)])]))
     reg("ord", lambda v: ord(v) if not ops.is_sym(v) else mk_int(rope_index_term(v, 0)))
-    reg("bin", lambda v: bin(v) if not ops.is_sym(v) else _oor("bin() of symbolic int"))
+    reg("bin", lambda v: bin(v) if not ops.is_sym(v) else sym_bin(v))
     reg("hex", lambda v: hex(v) if not ops.is_sym(v) else _oor("hex() of symbolic int"))
     reg("round", lambda v, *a: round(v, *a) if not ops.is_sym(v) else _oor("round symbolic"))
     reg("pow", lambda a, c: ops.py_binop("**", a, c))
@@ -1192,6 +1199,31 @@ class SymRange:
             self.start, self.stop, self.step = a[0], a[1], 1
         else:
             self.start, self.stop, self.step = a
+
+
+def sym_bin(v):
+    """bin(v) for a symbolic int: '0b' + most-significant-first binary digits without leading zeros.  The digit
+    count is fixed by a case split on the magnitude (complete: the loop is bounded by the operand width)."""
+    axiom("bin(v)[2:] is the MSB-first digit string of v >= 0 without leading zeros")
+    c = ctx()
+    t = T(v)
+    if not c.is_true(t >= 0):
+        if not c.branch(t >= 0):
+            raise OutOfReach("bin() of a negative symbolic int")
+    width = None
+    for w in (8, 16, 32, 64, 128):
+        if c.is_true(t < (1 << w)):
+            width = w
+            break
+    if width is None:
+        raise OutOfReach("bin() of an unbounded symbolic int")
+    n = width
+    for k in range(1, width):
+        if c.branch(t < (1 << k)):
+            n = k
+            break
+    digits = [simp(48 + (t / I(1 << (n - 1 - j))) % 2) for j in range(n)]
+    return mk_rope("str", [BL([48, 98] + digits)])
 
 
 def _len(interp, v):
